@@ -151,7 +151,7 @@ def make_cases(tier, seed, n_random=None, maxlen=None, long_n=None):
     if tier == "quick":
         n = long_n or 115
         gL, tok = shapes["right_linear"]
-        cases.append(dict(kind="long", name="long:right_linear", g=gL, token=tok, n=n, positions=[n], heap="real"))
+        cases.append(dict(kind="long", name="long:right_linear", g=gL, token=tok, n=n, positions=[n], heap="real", subnormal=True))
         gL, tok = shapes["nullable_unary"]
         cases.append(dict(kind="long", name="long:nullable_unary", g=gL, token=tok, n=n, positions=[n], heap="lifo"))
         # far below even the SQUARE ROOT of the double range (context weight 1e-1800): a coefficient that only half compensates
@@ -390,6 +390,26 @@ def check_long(cx):
             out["keys"].append(sig(case["name"], k, case["heap"]))
     if case["positions"][-1] == n:
         out["sample"] = dict(grammar=bridge.fmt_grammar(g), context=f"{tok}^{n}", log10_context_weight=round(lmspec.log_of(pw) / math.log(10), 2))
+    if case.get("subnormal"):
+        # the plain back ends on contexts whose prefix weight is a SUBNORMAL double (positive, below 1/DBL_MAX = 5.6e-309, yet with
+        # >= 37 significant bits): the conditional distribution is still a ratio of representable numbers
+        # (strengthened after seeded change C04-9: 1/Z overflows there)
+        from genlm.grammar.parse import earley as earley_plain, cky as cky_plain
+        ks = []
+        for k in range(max(1, n - 14), max(2, n - 8)):       # right_linear, n = 115: the window is k = 103
+            nwk, _ = lmspec.next_weights(Q, ge, x[:k])
+            pwk = sum(nwk.values())
+            if Fraction(1, 10**312) < pwk < Fraction(5, 10**309):
+                ks.append((k, nwk, pwk))
+        for qname, ctor in (("earley", earley_plain.EarleyLM), ("cky", cky_plain.CKYLM)):
+            st, lm2 = call(ctor, cfg)
+            if st != "ok":
+                continue
+            for k, nwk, pwk in ks[:2]:
+                st, p = call(lm2.p_next, x[:k])
+                out["n"] += 1
+                if st != "ok":
+XX, qname, dict(token=tok, length=k, prefix_weight=float(pwk)), pv, exp)
 
 
 def check_deep(cx):
